@@ -276,6 +276,62 @@ pub fn scenario(stream: &str, r: &mut Rng, idx: u64) -> Vec<String> {
             out.push("finish".into());
             out.push("truncs".into());
         }
+        "write" if r.chance(1, 16) => {
+            // every default of the builders (block size 8192, interval 8, levels 0, no codec):
+            // `cfg default` makes the harness set nothing at all
+            out.push("cfg default".into());
+            out.push("wnew".into());
+            let n = r.range(1200, 2500);
+            let es: Vec<Entry> = (0..n).map(|i| ((i as u32).to_be_bytes().to_vec(), r.bytes(4))).collect();
+            ins_lines(&mut out, &es);
+            out.push("finish".into());
+            out.push("load".into());
+            out.push("interop".into());
+            out.push("cnew 0".into());
+            for _ in 0..30 {
+                out.push(format!("c 0 {}", gen_cursor_op(r, &es)));
+            }
+        }
+        "exh" => {
+            // bounded-exhaustive cursor histories: EVERY operation sequence of length <= 3 over
+            // {first,last,next,prev,reset,current} and ge/le/eq at every probe class, on a small
+            // deep file; clones give the tree of sequences without re-running prefixes
+            let n = r.range(5, 8) as usize;
+            let es: Vec<Entry> = gen_keys(r, n, 1).into_iter().map(|k| (k, r.bytes(2))).collect();
+            out.push(format!("cfg codec=0 level=0 bs=32 minbs=32 iv={} levels={}", r.range(1, 3), r.range(2, 3)));
+            out.push("wnew".into());
+            ins_lines(&mut out, &es);
+            out.push("finish".into());
+            out.push("load".into());
+            let mut probes: Vec<Vec<u8>> = vec![Vec::new(), vec![0xff; 7]];
+            for (k, _) in &es {
+                probes.push(k.clone());
+                let mut a = k.clone();
+                a.push(0);
+                probes.push(a);
+            }
+            probes.sort();
+            probes.dedup();
+            let mut ops: Vec<String> = ["first", "last", "next", "prev", "reset", "current"].iter().map(|s| s.to_string()).collect();
+            for q in &probes {
+                for o in ["ge", "le", "eq"] {
+                    ops.push(format!("{} {}", o, hex(q)));
+                }
+            }
+            out.push("cnew 0".into());
+            for a in &ops {
+                out.push("cclone 0 1".into());
+                out.push(format!("c 1 {}", a));
+                for b in &ops {
+                    out.push("cclone 1 2".into());
+                    out.push(format!("c 2 {}", b));
+                    for c in &ops {
+                        out.push("cclone 2 3".into());
+                        out.push(format!("c 3 {}", c));
+                    }
+                }
+            }
+        }
         "write" => {
             let o = CfgOpts { all_codecs: true, deep: false, extreme_levels: true };
             let es = build_file(r, &mut out, &o, 60);
